@@ -159,6 +159,10 @@ func (e *Exec) modOfClause(fc *FuncContract, m string, ms *modSet) {
 		ms.ghosts[m] = true
 		return
 	}
+	if name, _, ok := ghostFieldLoc(e.P, m); ok {
+		ms.arrs["GF_"+name] = true
+		return
+	}
 	// forms: T.f (type-level) or x.f (location): both touch field arrays named f of the type of x
 	names := e.P.modArrays(fc, m)
 	if names == nil {
